@@ -3,10 +3,78 @@
 (* Named deviations (DESIGN.md 4.2/4.3): syntactic triggers, evaluated on  *)
 (* a case, of the genuine defects recorded in /verif/known_findings.json.  *)
 (* A judged event is attributed to a known finding only if the finding's   *)
-(* trigger holds for the case AND the judging clause is the one the        *)
-(* finding lists; anything else is a violation.                            *)
+(* trigger holds for the case AND the judging clause is one the finding    *)
+(* lists; anything else is a violation.                                    *)
 (***************************************************************************)
 EXTENDS Naturals, Sequences, FiniteSets, TauBase
 
-Devs(c) == {}
+(* how parser.rs:1382-1550 groups the members of a list on one key *)
+BatchClass(v) ==
+  IF v.t = "pat"
+  THEN IF v.k = "regex" THEN <<"re", v.ic>>
+       ELSE IF v.k = "any" \/ (v.k = "exact" /\ v.a = <<>>) THEN <<"solo">>
+       ELSE <<"aho", v.ic>>
+  ELSE <<"solo">>
+
+Classes(vs) == {BatchClass(vs[i]) : i \in DOMAIN vs} \ {<<"solo">>}
+InClass(vs, c) == {i \in DOMAIN vs : BatchClass(vs[i]) = c}
+
+(* some batch holds two or more members *)
+HasBatch(vs) == \E c \in Classes(vs) : Cardinality(InClass(vs, c)) >= 2
+(* ... and it is not the whole list: the group has further entries *)
+HasPartialBatch(vs) ==
+  \E c \in Classes(vs) : Cardinality(InClass(vs, c)) >= 2 /\ Cardinality(InClass(vs, c)) < Len(vs)
+
+RECURSIVE EntriesOf(_), EntriesOfList(_)
+(* all entries of a mapping body, including those of nested mappings *)
+EntriesOf(es) ==
+  IF es = <<>> THEN <<>>
+  ELSE LET h == Head(es)
+           inner == IF h.v.t = "map" THEN EntriesOf(h.v.es)
+                    ELSE IF h.v.t = "list"
+                         THEN EntriesOfList(h.v.vs)
+                         ELSE <<>>
+       IN <<h>> \o inner \o EntriesOf(Tail(es))
+EntriesOfList(vs) == IF vs = <<>> THEN <<>>
+                     ELSE (IF Head(vs).t = "map" THEN EntriesOf(Head(vs).es) ELSE <<>>) \o EntriesOfList(Tail(vs))
+
+RECURSIVE BodiesEntries(_)
+BodyEntries(b) == IF b.t = "map" THEN EntriesOf(b.es)
+                  ELSE IF b.t = "seq" THEN BodiesEntries(b.ms) ELSE <<>>
+BodiesEntries(ms) == IF ms = <<>> THEN <<>> ELSE EntriesOf(Head(ms).es) \o BodiesEntries(Tail(ms))
+
+RECURSIVE AllEntries(_)
+AllEntries(ids) == IF ids = <<>> THEN <<>> ELSE BodyEntries(Head(ids)[2]) \o AllEntries(Tail(ids))
+
+RECURSIVE QuantNames(_)
+(* identifiers named under all()/of() in the condition *)
+QuantNames(c) ==
+  CASE c.t \in {"all", "of"} -> {c.n}
+    [] c.t \in {"and", "or"} -> QuantNames(c.l) \cup QuantNames(c.r)
+    [] c.t \in {"not", "par"} -> QuantNames(c.e)
+    [] OTHER -> {}
+
+BodyOf(ids, n) == LET idx == {i \in DOMAIN ids : ids[i][1] = n} IN
+                  IF idx = {} THEN [t |-> "none"] ELSE ids[MinOf(idx)][2]
+
+(* KF quant_partial_batch: all(k)/of(k, n) on a list of which two or more members are batched *)
+(* into one Aho-Corasick / RegexSet search while other members remain: the quantifier counts  *)
+(* the batch as ONE member.                                                                   *)
+DevQuantPartialBatch(src) ==
+  \E i \in DOMAIN AllEntries(src.ids) :
+     LET en == AllEntries(src.ids)[i] IN
+     en.m \in {"all", "of"} /\ en.v.t = "list" /\ HasPartialBatch(en.v.vs)
+
+(* KF ident_list_batch: all(X)/of(X, n) in the condition over an identifier that is a mapping  *)
+(* with a single plain key whose list holds a batch: the members are not counted one by one.  *)
+DevIdentListBatch(src) ==
+  src.cond.t # "text" /\
+  \E n \in QuantNames(src.cond) :
+     LET b == BodyOf(src.ids, n) IN
+     b.t = "map" /\ Len(b.es) = 1 /\ b.es[1].v.t = "list" /\ HasBatch(b.es[1].v.vs)
+
+Devs(c) ==
+  IF "src" \notin DOMAIN c \/ "ids" \notin DOMAIN c.src THEN {}
+  ELSE (IF DevQuantPartialBatch(c.src) THEN {"quant_partial_batch"} ELSE {})
+       \cup (IF DevIdentListBatch(c.src) THEN {"ident_list_batch"} ELSE {})
 =============================================================================
